@@ -28,7 +28,10 @@ Locs == {"same", "child", "sibling", "parent", "cousin", "other-crate"}
 \* probed only from locations that can name the module m at all, so that the verdict is about the trait
 \*      "deleg" (trait inputs with `delegate_by = DelegateTr` only) = the generated delegation trait D::DelegateTr
 \* exp: the invocation also exports its mocks (`export` option / the entrait_export macro) - that must not touch the visibility
-Inputs0 == { i \in [mode : Modes, vis : UNION { VisFor(m) : m \in Modes }, itemvis : ItemVis, loc : Locs, via : {"name", "inmod", "deleg"}, exp : {"no", "option", "macro"}] :
+Inputs0 == { i \in [mode : Modes, vis : UNION { VisFor(m) : m \in Modes }, itemvis : ItemVis, loc : Locs, via : {"name", "inmod", "deleg"}, exp : {"no", "option", "macro"}, inner : BOOLEAN] :
+             \* inner: the entraited trait's body starts with an inner doc comment (`//! ..`): syn hands such a trait over with its
+             \* attributes merged, the macro re-assembles the item - its visibility must survive that
+             (i.inner => i.mode = "trait") /\
              i.vis \in VisFor(i.mode) /\ (i.via = "inmod" => i.mode = "mod") /\ (i.via = "deleg" => i.mode = "trait") /\ (i.exp # "no" => i.mode \in {"fn", "mod"} /\ i.vis \in {"", "pub(crate)"}) }
 
 P == <<"cases", "p">>
@@ -63,7 +66,7 @@ ResolveProbe == pc = "probe" /\ pc' = "done" /\ UNCHANGED <<i, items>>
 Spec == Init /\ [][GenTraitVisibility \/ ResolveProbe]_vars
 \* never wider, never narrower than requested - independent of the item's own visibility
 Refines == pc = "done" => PredAccessible(i) = R!Accessible(i.vis, D, FromPath(i.loc), SameCrate(i.loc))
-IndependentOfItemVis == \A a, b \in Inputs : (a.mode = b.mode /\ a.vis = b.vis /\ a.loc = b.loc /\ a.via = b.via /\ a.exp = b.exp) => PredAccessible(a) = PredAccessible(b)
+IndependentOfItemVis == \A a, b \in Inputs : (a.mode = b.mode /\ a.vis = b.vis /\ a.loc = b.loc /\ a.via = b.via /\ a.exp = b.exp /\ a.inner = b.inner) => PredAccessible(a) = PredAccessible(b)
 ASSUME IndependentOfItemVis
 
 ASSUME DumpCases => ndJsonSerialize(IOEnv.OUT, SetToSeq({ [in |-> x, l1 |-> L1In(x), expect |-> R!Accessible(x.vis, D, FromPath(x.loc), SameCrate(x.loc)),
